@@ -5,11 +5,11 @@
 (* values, fired rewrites.  One state per observation; TLC evaluates the   *)
 (* verdict operator of the L1 module the observation belongs to.           *)
 (***************************************************************************)
-EXTENDS TaskGraph, Collection, Optimizer, MapBlocksInfo, SourceIO, Naming, RandomRealization, XarrayOptIn, Fusion, Json, IOUtils, TLCExt
+EXTENDS TaskGraph, Collection, Optimizer, MapBlocksInfo, SourceIO, Naming, RandomRealization, XarrayOptIn, Fusion, Blelloch, Json, IOUtils, TLCExt
 Cases == ndJsonDeserialize(IOEnv.CASES)
 VARIABLE i
-Init == i = 0 /\ g = Chain3 /\ st = S0 /\ om = M0("n") /\ mbsnap = <<>> /\ mbseen = {} /\ iophase = "constructing" /\ ioreads = {} /\ content = <<>> /\ cache = <<>> /\ ncfg = "x" /\ rng = 0 /\ seeds = <<>> /\ seen = <<>> /\ xloaded = {} /\ xmanager = "none" /\ xregistered = FALSE /\ fleft = <<>> /\ fright = <<>> /\ fstack = <<>> /\ ffound = {} /\ fphase = "walk"
-Next == i < Len(Cases) /\ i' = i + 1 /\ UNCHANGED <<g, st, om, mbsnap, mbseen, iophase, ioreads, content, cache, ncfg, rng, seeds, seen, xloaded, xmanager, xregistered, fleft, fright, fstack, ffound, fphase>>
+Init == i = 0 /\ g = Chain3 /\ st = S0 /\ om = M0("n") /\ mbsnap = <<>> /\ mbseen = {} /\ iophase = "constructing" /\ ioreads = {} /\ content = <<>> /\ cache = <<>> /\ ncfg = "x" /\ rng = 0 /\ seeds = <<>> /\ seen = <<>> /\ xloaded = {} /\ xmanager = "none" /\ xregistered = FALSE /\ fleft = <<>> /\ fright = <<>> /\ fstack = <<>> /\ ffound = {} /\ fphase = "walk" /\ bst = BStart(0)
+Next == i < Len(Cases) /\ i' = i + 1 /\ UNCHANGED <<g, st, om, mbsnap, mbseen, iophase, ioreads, content, cache, ncfg, rng, seeds, seen, xloaded, xmanager, xregistered, fleft, fright, fstack, ffound, fphase, bst>>
 
 Verdict(c) ==
   CASE c.fn = "graph"   -> GraphVerdict(c)
@@ -23,6 +23,7 @@ Verdict(c) ==
     [] c.fn = "rechunk_spec" -> RechunkSpecVerdict(c)
     [] c.fn = "joint" -> JointVerdict(c)
     [] c.fn = "diamond" -> DiamondVerdict(c)
+    [] c.fn = "blelloch" -> BlellochVerdict(c)
     [] c.fn = "block_info2" -> (IF BlockInfo2Verdict(c) # "ok" THEN BlockInfo2Verdict(c)
                                 ELSE IF c.got.kind = "raised" THEN "ok-computation-raised"
                                 ELSE IF ~SameValue(c.got, c.expect) THEN "map-blocks-value-differs" ELSE "ok")
